@@ -355,6 +355,9 @@ EVAL = {'speriodogram': eval_speriodogram, 'Periodogram': eval_class, 'CORRELOGR
 
 
 def replay(rep):
+    if rep['replay'].get('protocol') == 'values_only':
+        from props import _purity
+        return _purity.replay_protocol(rep['replay'])
     r = rep['replay']
     f = EVAL.get(r.get('function'))
     if f is None:
@@ -782,3 +785,7 @@ def run(ctx):
         for i in ctx.coq_cases(nm, pr, cases[:len(meta)], descr=descr):
             ctx.corr_disagreement(meta[i]['function'], i, meta[i])
     search(ctx)
+
+    # ---------------- results depend on the VALUES given only: call protocol (repeat, aliasing, buffer reuse, memory layout, integer / single-precision dtypes)
+    from props import _purity
+    _purity.run_protocol(ctx, ['speriodogram', 'speriodogram_detrend', 'CORRELOGRAMPSD'])
